@@ -27,7 +27,8 @@ KERNELS = ['scale', 'scale2', 'pack', 'pack2', 'unpack', 'sdot', 'snrm2', 'sgemv
 
 def cases(tier, seed, flavour):
     # (+ two 's' blocks of different orders >= 2: the fallback kernels share one workspace of the largest order)
-    structs = dom.structures(tier) + [{'l': 0, 'q': [], 's': [2, 3]}, {'l': 1, 'q': [2], 's': [3, 2]}]
+    structs = dom.structures(tier) + [{'l': 1, 'q': [2], 's': [3, 2]}, {'l': 0, 'q': [], 's': [1, 2, 2]},
+                                      {'l': 1, 'q': [], 's': [2, 1, 3]}, {'l': 0, 'q': [2], 's': [2, 2, 1, 2]}]
     nvar = 4 if tier == 'thorough' else 2
     variants = [(seed * nvar + i) for i in range(nvar)]
     if flavour == 'asan' and tier == 'quick':
